@@ -114,9 +114,6 @@ theorem lexL_syntaxLine (l : Nat) :
   have : String.ofList ('"' :: "proto3".toList ++ ['"']) = "\"proto3\"" := by decide
   rw [this]
 
-/-- a line that holds only tokens -/
-def TokLine (s : String) : Prop := ∀ (L : Nat), ∀ r ∈ lexL s.toList L, ∃ t ln, r = Raw.tok t ln
-
 theorem tokLine_of_noSlash (s : String) (h : NoCh '/' s.toList) : TokLine s :=
   fun L r hr => lexL_tokens _ s.toList rfl h L r hr
 
@@ -174,7 +171,7 @@ theorem lines_simple (gen : String) (t : FileD) (h : SimpleFile gen t) :
   rw [run_eq_exec, fileCmds_simple gen t h, exec_append]
   simp [exec]
 
-theorem cmds_P_of_noCh {x : Char} (P : String → Prop) (hP : ∀ s, NoCh x s.toList → P s) (cmds : List Cmd)
+theorem cmds_P_of_noCh {x : Char} (P : String → Prop) (hP : ∀ s, LineOk x s → P s) (cmds : List Cmd)
     (h : CmdsNoCh x cmds) : ∀ c ∈ cmds, match c with | .line s => P s | .endl s => P s | .gap => True := by
   intro c hc
   have := h c hc
@@ -206,7 +203,8 @@ theorem lex_text (gen : String) (t : FileD) (h : SimpleFile gen t) :
     · intro d hd
       obtain ⟨hb, hm⟩ := h.imports d (sortImports_mem t d hd)
       exact noNL_importLine d hb hm
-    · exact cmds_P_of_noCh (x := '\n') _ (fun s hs => hs) _ (simpleTops_noCh safe_nl t.items true 0 0 h.items)
+    · exact cmds_P_of_noCh (x := '\n') _ (fun s hs => hs.elim id (fun h2 => absurd h2.1 (by decide))) _
+        (simpleTops_noCh safe_nl t.items true 0 0 h.items)
   -- every line after the first holds tokens only
   have htok1 : ∀ s ∈ (exec (restCmds t) false).1, TokLine s := by
     apply restCmds_lines t TokLine
@@ -216,7 +214,7 @@ theorem lex_text (gen : String) (t : FileD) (h : SimpleFile gen t) :
     · intro d hd
       obtain ⟨hb, hm⟩ := h.imports d (sortImports_mem t d hd)
       exact tokLine_importLine d hb hm
-    · exact cmds_P_of_noCh (x := '/') _ (fun s hs => tokLine_of_noSlash s hs) _
+    · exact cmds_P_of_noCh (x := '/') _ (fun s hs => hs.elim (tokLine_of_noSlash s) (fun h2 => h2.2)) _
         (simpleTops_noCh safe_slash t.items true 0 0 h.items)
   have hgen : NoNL ("// " ++ gen).toList := by
     simp only [String.toList_append]
